@@ -211,3 +211,43 @@ Example C01_order_nonvacuous :
   match_policies (ex_req "list" "" "nodes" "") [p_pods; p_all] = Some 1%nat /\
   match_policies (ex_req "delete" "" "nodes" "") [p_pods; p_all] = None.
 Proof. vm_compute. repeat split; reflexivity. Qed.
+
+(* ---- a match that overlaps a Sync of the policy list ----
+   For all requests, all old and new lists and every interruption point of the model's evaluation
+   order (before the load; before any policy read; before the fields of the result are read):
+   the answer is the decision under the old list or the decision under the new list, and a forwarded
+   answer names a policy that is the first matching one of the list it came from. *)
+Theorem C01_overlapping_sync_old_or_new : forall a old new eps k,
+  (overlapped_match a old new eps k = match_attributes a old eps \/
+   overlapped_match a old new eps k = match_attributes a new eps) /\
+  (forall f ups, overlapped_match a old new eps k = Some (f, ups) ->
+     exists ps i p, (ps = old \/ ps = new) /\ first_match a ps = Some i /\ nth_error ps i = Some p /\
+                    (exists r, In r (p_rules p) /\ rule_sem a r = true) /\
+                    f = flow_name p /\ ups = (if list_len0 (p_subset p) then eps else p_subset p)).
+Proof. exact overlapping_sync_old_or_new. Qed.
+Print Assumptions C01_overlapping_sync_old_or_new.
+
+(* which of the two: the new list iff the Sync completed before the list was loaded *)
+Theorem C01_overlapping_sync_snapshot : forall a old new eps k,
+  overlapped_match a old new eps k = match_attributes a (match k with O => new | S _ => old end) eps.
+Proof. exact overlapped_is. Qed.
+Print Assumptions C01_overlapping_sync_snapshot.
+
+(* non-vacuity: the lists of seeded/C01-f (old [get->reads; *->rest], new [delete->deletes], get pods):
+   the two decisions differ, every interruption point yields one of them, and "deletes" — what an
+   in-place overwrite of the old array yields — is neither *)
+Example C01_overlap_nonvacuous :
+  let old := [mkPolicy [ex_rule ["get"] ["*"] ["*"] []] "reads" [];
+              mkPolicy [ex_rule ["*"] ["*"] ["*"] []] "rest" []] in
+  let new := [mkPolicy [ex_rule ["delete"] ["*"] ["*"] []] "deletes" []] in
+  let a := ex_req "get" "" "pods" "" in
+  let eps := ["https://a:6443"] in
+  match_attributes a old eps = Some ("reads", eps) /\ match_attributes a new eps = None /\
+  overlapped_match a old new eps 0 = None /\
+  overlapped_match a old new eps 1 = Some ("reads", eps) /\
+  overlapped_match a old new eps 2 = Some ("reads", eps) /\
+  overlapped_match a old new eps 7 = Some ("reads", eps) /\
+  overlapped_match (ex_req "list" "" "pods" "") old new eps 2 = Some ("rest", eps) /\
+  atomic_list_ok a old new eps (mkOv true (mkMA false true "reads" eps) (mkMA true false "" [])) = true /\
+  atomic_list_ok a old new eps (mkOv true (mkMA false true "deletes" eps) (mkMA true false "" [])) = false.
+Proof. vm_compute. repeat split; reflexivity. Qed.
